@@ -14,7 +14,7 @@ import random
 
 from vf import cluster as C
 from vf import refrecords as rr
-from vf.simharness import FaultPlan, make_cluster, owned, run_sim
+from vf.simharness import FaultPlan, make_cluster, owned, run_sim, idle_ms
 from vf.simloop import OWNER
 
 TOPIC = "t"
@@ -121,7 +121,7 @@ def run_history(P):
                     bootstrap_servers=cl.bootstrap(), client_id="client", acks=-1 if P["idempotent"] else P["acks"],
                     enable_idempotence=P["idempotent"], linger_ms=P["linger_ms"], max_batch_size=400,
                     request_timeout_ms=P["request_timeout_ms"], retry_backoff_ms=P["retry_backoff_ms"],
-                    metadata_max_age_ms=P["metadata_max_age_ms"])
+                    metadata_max_age_ms=P["metadata_max_age_ms"], connections_max_idle_ms=idle_ms(P))
             else:
                 client = AIOKafkaConsumer(
                     bootstrap_servers=cl.bootstrap(), client_id="client",
@@ -130,7 +130,7 @@ def run_history(P):
                     session_timeout_ms=P["session_timeout_ms"], heartbeat_interval_ms=P["heartbeat_interval_ms"],
                     rebalance_timeout_ms=P["rebalance_timeout_ms"], request_timeout_ms=P["request_timeout_ms"],
                     retry_backoff_ms=P["retry_backoff_ms"], metadata_max_age_ms=P["metadata_max_age_ms"],
-                    fetch_max_wait_ms=200)
+                    fetch_max_wait_ms=200, connections_max_idle_ms=idle_ms(P))
                 if wl == "group_consumer":
                     if not P.get("late_subscribe"):
                         client.subscribe([TOPIC])
